@@ -44,7 +44,7 @@ LEAN_KEYWORDS = {'open', 'end', 'at', 'from', 'fun', 'let', 'have', 'show', 'in'
 
 # sorts -> Lean types (inside a family whose header binds I S K)
 LEAN_TYPE = {'img': 'I', 'se': 'S', 'nat': 'Nat', 'int': 'Int', 'bool': 'Bool', 'K': 'K', 'vec': 'List K', 'mode': 'M',
-             'natlist': 'List Nat', 'intlist': 'List Int'}
+             'arr': 'A', 'natlist': 'List Nat', 'intlist': 'List Int'}
 
 # guard helpers whose calls (as expression statements) are dropped: translator/guards.py extracts them
 GUARD_CALLS = {'_verify_is_integer_type', '_verify_is_floatingpoint_type', '_verify_is_bool', '_verify_is_nonnegative',
@@ -71,8 +71,9 @@ class Prim:
     `args` = sorts of the kept positional arguments, in the Python order; `kw` = keyword name -> position (keywords that may
     be used instead of a position); positional arguments beyond `args` must be plumbing names or string constants."""
 
-    def __init__(self, field, args, ret, kw=None, doc=''):
+    def __init__(self, field, args, ret, kw=None, doc='', elementwise=False):
         self.field, self.args, self.ret, self.kw, self.doc = field, list(args), ret, dict(kw or {}), doc
+        self.elementwise = elementwise      # a numpy ufunc of one argument: on a vector it is `List.map`
 
 
 class Target:
@@ -399,6 +400,10 @@ class Tr:
                 raise self.err(node, f'keyword {k.arg} of {d} is not reviewed')
         if any(s is None for s in slots):
             raise self.err(node, f'{d}: missing argument {slots.index(None)} (defaults of primitives are not modelled)')
+        if p.elementwise and len(slots) == 1:
+            a, sa = self._E(slots[0], env)
+            if sa == 'vec':
+                return f'(List.map P.{p.field} {a})', 'vec'
         parts = [self.E(a, env, s)[0] for a, s in zip(slots, p.args)]
         if p.field.startswith('='):                      # a fixed Lean function of the prelude rather than a field
             return '(' + ' '.join([p.field[1:]] + parts) + ')', p.ret
@@ -666,6 +671,17 @@ MORPH = Family(
         'close': Prim('close', ['img', 'se'], 'img'),
     })
 
+NUM = '[Add K] [Sub K] [Mul K] [Div K] [Neg K] [Zero K]'
+EMBED = '(ofNat : Nat → K) (ofInt : Int → K) (flit : Nat → Nat → K) '
+CONV = Family(
+    'convolve', ['K', 'A', 'M'], NUM, 'ConvPrims',
+    {
+        'np.exp': Prim('exp', ['K'], 'K', elementwise=True),
+        'int': Prim('trunc', ['K'], 'int', doc='Python `int(x)` of a float: truncation toward zero'),
+        'convolve1d': Prim('convolve1d', ['arr', 'vec', 'int', 'mode', 'K'], 'arr',
+                           kw={'axis': 2, 'mode': 3, 'cval': 4}),
+    }, extra_params=EMBED)
+
 TARGETS = [
     Target('morph.py', 'open', [('f', 'img'), ('Bc', 'se')], 'img', MORPH),
     Target('morph.py', 'close', [('f', 'img'), ('Bc', 'se')], 'img', MORPH),
@@ -673,8 +689,11 @@ TARGETS = [
     Target('morph.py', 'cdilate', [('f', 'img'), ('g', 'img'), ('Bc', 'se'), ('n', 'nat')], 'img', MORPH),
     Target('morph.py', 'tophat_open', [('f', 'img'), ('Bc', 'se')], 'img', MORPH),
     Target('morph.py', 'tophat_close', [('f', 'img'), ('Bc', 'se')], 'img', MORPH),
+    # order: a Python int; the reviewed signature takes it as a natural (a negative order ends in the final `raise` like any order > 3)
+    Target('convolve.py', 'gaussian_filter1d',
+           [('array', 'arr'), ('sigma', 'K'), ('axis', 'int'), ('order', 'nat'), ('mode', 'mode'), ('cval', 'K')], 'arr', CONV),
 ]
-FAMILIES = [MORPH]
+FAMILIES = [MORPH, CONV]
 
 
 def _find_function(tree, name):
